@@ -41,7 +41,8 @@ MC = {
     "ref5b": dict(MaxRef=5, BUids="{}", MaxUid=1, MaxRefProps=2),
     # DOM 2 made by WeakDom::default(): no root, its first instance an orphan
     "rootless4": dict(MaxRef=4, BUids="{}", MaxUid=1, MaxRefProps=1, RootlessDoms="{2}"),
-    "rootless5": dict(MaxRef=5, BUids="{}", MaxUid=1, MaxRefProps=1, RootlessDoms="{2}"),
+    "rootless5": dict(MaxRef=5, BUids="{}", MaxUid=1, MaxRefProps=0, RootlessDoms="{2}"),
+    "rootless4b": dict(MaxRef=4, BUids="{}", MaxUid=1, MaxRefProps=2, RootlessDoms="{2}"),
 }
 
 # which properties claim which kinds of rejected trace lines
@@ -52,7 +53,7 @@ def claims(pid, op, kind, wf):
         return wf == "illformed" or op in ("walk", "transfer_within_bad", "insert_collide") or \
             (kind == "struct" and op in ("destroy", "transfer"))
     if pid == "C10":
-        return kind == "struct" and op in ("new", "insert", "insert_collide", "destroy", "transfer", "transfer_within", "setref")
+        return kind == "struct" and op in ("new", "insert", "insert_collide", "bad", "destroy", "transfer", "transfer_within", "setref")
     if pid == "C11":
         return op == "clone" and kind == "struct"
     if pid == "C12":
@@ -124,7 +125,7 @@ def run(pid, tier, seed, replay=None):
     mc_plan = {
         "C09": (["struct5"], ["struct6", "rootless5"]),
         "C10": (["struct5", "ref4"], ["struct6", "ref5", "rootless5"]),
-        "C11": (["ref4", "rootless4"], ["ref5", "ref5b", "rootless5"]),
+        "C11": (["ref4", "rootless4"], ["ref5", "ref5b", "rootless4b"]),
         "C12": (["uid4"], ["uid5", "uid5b"]),
     }[pid]
     states = transitions = 0
